@@ -1,5 +1,6 @@
 import ALV.Common.Json
 import ALV.Model.C16
+import ALV.Model.C16Gen
 import ALV.Spec.C16
 namespace ALV.Driver.C16
 open ALV ALV.J ALV.C16
@@ -40,17 +41,17 @@ def handle (entry : String) (j : Json) : Except String Json := do
     let keep ← getBool (fieldD j "keep" (Json.bool false))
     let zero ← getRat (fieldD j "zero" (Json.int 0))
     let ops ← getList getOp (← field j "ops")
-    let tr := mtrace zero (MState.init keep : MState Rat) ops
+    -- generator-level machine: what the caller sees, the sizes of the two containers, and the
+    -- frame's local `count` whenever the generator is suspended at the yield
+    let tr := ptrace zero (PState.init keep : PState Rat) ops
     let m := tr.map fun (st, o) =>
-      let cnt := match o with
-        | .out _ _ => ratToJson (st.count - 1)      -- the generator is suspended before `count += 1.`
-        | _ => Json.null
+      let cnt := if st.suspended && !st.ended then ratToJson st.count else Json.null
       Json.arr [obsJson o, natToJson st.notPlaying.length, natToJson st.playing.length, cnt]
     let mr := mrun zero (MState.init keep : MState Rat) ops
     let sr := srun zero (SState.init keep : SState Rat) ops
     pure <| Json.mkObj [
       ("model", Json.arr m),
-      ("model_run", arr obsJson mr.2),
+      ("fused", arr obsJson mr.2),
       ("spec", arr obsJson sr.2),
       ("starts", nats (sr.1.evs.map (·.start))),
       ("n", natToJson sr.1.n),
